@@ -306,4 +306,39 @@ example : saveReopen Generated.Reopen.writerViaReader demoEnv demo 0 ⟨none, so
     .ok (forestOf demoEnv demo 0) :=
   save_reopen_doc demoEnv demo 0 _ demo_inv demo_docOk demo_classified (fun h => absurd h (by decide))
 
+/-! non-vacuity of `save_reopen_bytes`: C01's sample document (a PSB; two nested groups, a masked layer)
+holds the records of this tree -/
+
+/-- the divider rule on C01's record values: the `lsct` block's kind (last byte of the big-endian
+`u32`; 3 = bounding, 1 / 2 = open / closed folder) -/
+def lsctRole (r : Psd.LayerRecord) (p : Nat) : Rec :=
+  match r.taggedBlocks.find? (fun t => t.key == Psd.Samples.kLsct) with
+  | some t => match t.data with
+    | [0, 0, 0, 3] => .bounding p
+    | 0 :: 0 :: 0 :: 1 :: _ => .closing p false
+    | 0 :: 0 :: 0 :: 2 :: _ => .closing p false
+    | _ => .leaf p
+  | none => .leaf p
+
+theorem lsctRole_channelBlind : ChannelBlind lsctRole := fun _ _ _ => rfl
+
+/-- document 0 lists [1]; group 1 lists [2, 4]; group 2 lists [3] -/
+def sampleOps : List Op :=
+  [.newDoc ⟨0, 0, 4, 4⟩, .newGroup (some 0), .newGroup (some 1), .newLayer (some 0) ⟨1, 1, 2, 2⟩, .moveToGroup 3 2,
+   .newLayer (some 0) ⟨0, 0, 4, 4⟩, .moveToGroup 4 1]
+
+theorem sample_guarded : Guarded .current (State.empty 50) sampleOps :=
+  ⟨trivial, by decide, trivial, by decide, trivial, by decide, trivial, by decide, trivial, by decide,
+   trivial, by decide, trivial, by decide, trivial⟩
+
+example : ∃ bs x' li' rs', Psd.PSD.enc 4 Psd.Samples.sampleDoc = .ok bs ∧ Psd.PSD.read bs 0 = .ok (x', bs.length) ∧
+    x'.layerAndMask.layerInfo = some li' ∧ li'.records = some rs' ∧
+    parse (List.zipWith lsctRole rs' [101, 102, 3, 2, 4, 1]) =
+      .ok (forestOf demoEnv (runState .current (State.empty 50) sampleOps) 0) := by
+  have henc : Psd.PSD.enc 4 Psd.Samples.sampleDoc = .ok (Psd.Samples.sampleDoc.encT 4) := by decide +kernel
+  obtain ⟨x', li', rs', h1, h2, h3, _, h5⟩ := save_reopen_bytes lsctRole lsctRole_channelBlind demoEnv
+    (runState .current (State.empty 50) sampleOps) 0 (inv_run _ _ (inv_empty 50) sample_guarded) (fun _ _ _ => rfl)
+    4 Psd.Samples.sampleDoc C01.sample_wf _ _ [101, 102, 3, 2, 4, 1] rfl rfl (by decide) _ henc
+  exact ⟨_, x', li', rs', henc, h1, h2, h3, h5⟩
+
 end PsdVerif.C09Reopen
